@@ -18,6 +18,9 @@ const uint8_t *cqv_d0;
 size_t cqv_len0;
 uint32_t cqv_g;
 size_t cqv_n;
+/* postcondition of crc32_slicing_by_8 / carquet_crc32_update (c = start value) / carquet_crc32 (c = 0) */
+#define CQV_POST_SLICING(ret, c, p, n) \
+  (cqv_c0 == (c) && cqv_d0 == (p) && cqv_len0 == (n) && cqv_n == (n) && (ret) == (cqv_g ^ 0xFFFFFFFFu))
 /* spec steps called by the inserted ghost code.  Their BODIES are the bit-serial definition
  * (spec_crc32_byte, eight of them for a block); their CONTRACTS (proved below) say that the value
  * equals the table expression the real code uses. */
@@ -254,13 +257,21 @@ void h_lemma_block8(void) {
   CQV_CANARY("block lemma harness end");
 }
 
-/* 3.-5. the real function, unbounded length, both module states */
+/* 3.-5. the real function, unbounded length, both module states.
+ * "Harness is the contract" (loop contracts applied, function contract asserted here with the same
+ * macro the overlay uses in the ensures clause): --enforce-contract needs the loops of the callee
+ * crc32_init_tables unrolled in the goto program, and the loop-contract pass does not get through
+ * the 4000 unrolled table stores (>12 GB).  Here cbmc itself unwinds them. */
 void h_slicing(void) {
   cqv_module_state(nondet_bool());
   uint32_t crc = nondet_u32();
-  const uint8_t *data = nondet_ptr();
   size_t length = nondet_size_t();
+  __CPROVER_assume(length <= CQV_MAXBUF);
+  const uint8_t *data = malloc(length);
+  __CPROVER_assume(data != NULL);
   uint32_t r = crc32_slicing_by_8(crc, data, length);
+  __CPROVER_assert(CQV_POST_SLICING(r, crc, data, length), "crc32_slicing_by_8: result is the complement of the ghost bit-serial register folded over exactly the input");
+  __CPROVER_assert(crc32_tables_initialized != 0, "tables are initialized afterwards");
   CQV_CANARY("crc32_slicing_by_8 returns");
 }
 
